@@ -274,6 +274,38 @@ pub fn gen(seed: u64, thorough: bool) {
             emit(&t);
         }
     }
+    // integer parts of 20..40 digits next to a midpoint of two adjacent doubles (h-1, h, h+1 as whole numbers: the digits beyond the
+    // 19th decide the rounding), followed by nothing, an all-zero fraction, an exponent, or a fraction whose only non-zero digit is late
+    let n_big = if thorough { 3000 } else { 300 };
+    for _ in 0..n_big {
+        let be = 1023 + 64 + r.below(66) as u64; // 2^64 .. 2^130: the midpoint is an integer
+        let bits = (be << 52) | (r.next() >> 12);
+        let (digits, exp10) = midpoint_digits(bits);
+        if exp10 < digits.len() as i64 {
+            continue;
+        }
+        let mut h: Vec<u8> = digits.clone();
+        h.resize(exp10 as usize, b'0');
+        let mut hm = h.clone(); // h - 1
+        for i in (0..hm.len()).rev() {
+            if hm[i] == b'0' { hm[i] = b'9'; } else { hm[i] -= 1; break; }
+        }
+        let mut hp = h.clone(); // h + 1
+        for i in (0..hp.len()).rev() {
+            if hp[i] == b'9' { hp[i] = b'0'; } else { hp[i] += 1; break; }
+        }
+        for m in [&hm, &h, &hp] {
+            for suffix in ["", ".0", ".000", ".0e0", ".00E+2", ".0e-3", "e0", "e-2", ".0000000000000000000000001", ".5"] {
+                let mut t = m.to_vec();
+                t.extend_from_slice(suffix.as_bytes());
+                emit(&t);
+            }
+            let mut t = vec![b'-'];
+            t.extend_from_slice(m);
+            t.extend_from_slice(b".0");
+            emit(&t);
+        }
+    }
     // 19/20-digit integer boundaries
     for base in [9223372036854775807u128, 18446744073709551615u128, 9999999999999999999u128, 10000000000000000000u128, 99999999999999999999u128] {
         for d in 0..6u128 {
